@@ -189,6 +189,14 @@ class Sim:
             m.clear(); return 'single'
         if name == 'copy':
             return 'single'
+        if name == 'selfop':
+            # the container itself as the argument of a bulk / set-algebra operation
+            how = op[1]
+            if how in ('isub', 'ixor'):
+                m.clear()
+            elif how == 'extend' and m:
+                raise Reject
+            return 'bulk'
         if name in ('ior', 'iand', 'isub', 'ixor'):
             other = [val(x) for x in op[1]]
             if name == 'ior':
@@ -235,6 +243,15 @@ class Sim:
         elif name == 'reverse': c.reverse()
         elif name == 'clear': c.clear()
         elif name == 'copy': self.real = c.copy()
+        elif name == 'selfop':
+            how = op[1]
+            if how == 'ior': c |= c
+            elif how == 'iand': c &= c
+            elif how == 'isub': c -= c
+            elif how == 'ixor': c ^= c
+            elif how == 'update': c.update(c)
+            else: c.extend(c)
+            self.real = c
         elif name == 'ior': c |= [val(x) for x in op[1]]
         elif name == 'iand': c &= [val(x) for x in op[1]]
         elif name == 'isub': c -= [val(x) for x in op[1]]
@@ -312,7 +329,7 @@ class Sim:
             kind = self.model_apply(op)
         except Reject:
             rejected = True
-            bulk = op[0] in ('extend', 'update', 'setslice', 'delslice', 'ior', 'iand', 'isub', 'ixor')
+            bulk = op[0] in ('extend', 'update', 'setslice', 'delslice', 'ior', 'iand', 'isub', 'ixor', 'selfop')
             if not bulk:
                 self.model = before
         raised = None
@@ -334,7 +351,7 @@ class Sim:
             out.append((f'C18|{self.kind}|raised|{op[0]}|{type(raised).__name__}', f'{tag}: raised {raised!r} on a legal operation'))
             self.model = list(self.real)
         if rejected and raised is not None:
-            bulk = op[0] in ('extend', 'update', 'setslice', 'delslice', 'ior', 'iand', 'isub', 'ixor')
+            bulk = op[0] in ('extend', 'update', 'setslice', 'delslice', 'ior', 'iand', 'isub', 'ixor', 'selfop')
             if bulk:
                 # a prefix may have been applied: resynchronise, internal consistency is still checked below
                 self.model = list(self.real)
@@ -440,6 +457,8 @@ def make_machine(kind, acc):
         def isub(self, xs): self.go(('isub', tuple(xs)))
         @rule(xs=vals)
         def ixor(self, xs): self.go(('ixor', tuple(xs)))
+        @rule(how=st.sampled_from(['ior', 'iand', 'isub', 'ixor', 'update', 'extend']))
+        def selfop(self, how): self.go(('selfop', how))
 
         if kind == 'linqset':
             @rule(x=v, nb=v, rel=st.sampled_from([-1, 1]))
@@ -471,7 +490,8 @@ def small_alphabet(kind):
     ops += [('delitem', 0), ('delitem', -1), ('pop',), ('reverse',), ('clear',), ('copy',),
             ('delslice', (None, None, 2)), ('delslice', (1, None, None)),
             ('setslice', (0, 2, None), (1, 0)), ('setslice', (0, 2, None), (2, 2)), ('setslice', (None, None, -1), (0, 1)),
-            ('extend', (0, 1)), ('update', (1, 2)), ('isub', (0,)), ('iand', (0, 1)), ('ior', (2, 0)), ('ixor', (0, 2))]
+            ('extend', (0, 1)), ('update', (1, 2)), ('isub', (0,)), ('iand', (0, 1)), ('ior', (2, 0)), ('ixor', (0, 2)),
+            ('selfop', 'isub'), ('selfop', 'ixor'), ('selfop', 'iand'), ('selfop', 'extend')]
     if kind == 'linqset':
         ops += [('wedge', 2, 0, 1), ('wedge', 1, 0, -1)]
     else:
